@@ -227,52 +227,15 @@ theorem C03_pcr {fs : Files} {lines : List Str} {a : Assembly} (h : assemble fs 
       subst h4
       exact ⟨_, start, r, v, hu, h2, hat, h3, rfl⟩
 
-/-! ### the full statement does not hold -/
+/-! ### the full statement does not hold
 
-/-- a forward `LEAX T1,PCR` over four `LDA 1000,X` (size 4 but `max_size` 2), `RMB 100` and three still undecided
-`LEAX FAR,PCR`: `determine_pcr_relative_sizes` settles on the 8-bit form although the final distance is 128 -/
-def C03_pcrWitness : List Str :=
-  ["START LEAX T1,PCR\n", " LDA 1000,X\n", " LDA 1000,X\n", " LDA 1000,X\n", " LDA 1000,X\n", " RMB 100\n",
-   " LEAX FAR,PCR\n", " LEAX FAR,PCR\n", " LEAX FAR,PCR\n", "T1 NOP\n", " RMB 200\n", "FAR NOP\n"].map String.toList
-
-private def pcrCheck (a : Assembly) : Bool :=
-  match a.stmts[0]?, a.stmts[9]? with
-  | some s, some t =>
-    s.pkg.needsRes && s.pcrHint == 2 && s.pkg.size == 3 && addrNat s == some 0 && addrNat t == some 131 &&
-    (match s.operand.left with | .val (.address 9 _) => true | _ => false)
-  | _, _ => false
-
-private theorem pcrWitness_checks : checkProgram C03_pcrWitness pcrCheck = true := by decide +kernel
-
-/-- **Finding** (model level): the PCR size loop can choose the 8-bit form for an offset of +128.
-Cause: `translateOffset` returns `maxSize < size` for 8/16-bit constant offsets, so the upper estimate
-`mx` of `determine` is not an upper bound. -/
-theorem C03_pcr_range_counterexample :
-    ∃ a s t, assemble [] C03_pcrWitness = .ok a ∧ a.stmts[0]? = some s ∧ a.stmts[9]? = some t ∧
-      s.pkg.needsRes = true ∧ s.pcrHint = 2 ∧ addrNat s = some 0 ∧ addrNat t = some 131 ∧ s.pkg.size = 3 ∧
-      (∃ m, s.operand.left = .val (.address 9 m)) ∧ pcrJump s 131 0 = 128 := by
-  obtain ⟨a, ha, hchk⟩ := checkProgram_sound pcrWitness_checks []
-  unfold pcrCheck at hchk
-  split at hchk
-  · rename_i s t hs ht
-    simp only [Bool.and_eq_true, beq_iff_eq] at hchk
-    obtain ⟨⟨⟨⟨⟨h1, h2⟩, h3⟩, h4⟩, h5⟩, h6⟩ := hchk
-    split at h6
-    · rename_i m hleft
-      refine ⟨a, s, t, ha, hs, ht, h1, h2, h4, h5, h3, ⟨m, hleft⟩, ?_⟩
-      simp [pcrJump, h2, h3]
-    · cases h6
-  · cases hchk
-
-theorem C03_Statement_false : ¬ C03_Statement := by
-  intro hC
-  obtain ⟨a, s, t, ha, hs, ht, hn, hh, hx, hy, _, ⟨m, hleft⟩, hj⟩ := C03_pcr_range_counterexample
-  obtain ⟨x, y, v, hx', hy', _, _, hr⟩ := (hC [] _ a ha).2 0 9 m s t hs hn hleft ht
-  rw [hx] at hx'; cases hx'
-  rw [hy] at hy'; cases hy'
-  have := (hr hh).2
-  rw [hj] at this
-  omega
+History: this section used to contain `C03_pcrWitness` / `C03_pcr_range_counterexample`, a program
+(`LEAX T1,PCR` over four `LDA 1000,X`, `RMB 100` and three undecided `LEAX FAR,PCR`) on which the size loop
+chose the 8-bit PCR form for an offset of +128, because `translateOffset` returned `maxSize < size` for
+8/16-bit constant offsets.  That defect was repaired (fix aafdc4b: `maxSize = size + 1` / `size + 2`); on the
+repaired model the program is assembled with the 16-bit form (`pcrHint = 4`, `size = 4`, stored offset 128), so
+the former counterexample is gone and the refutation was deleted.  Every `maxSize` the model produces is
+now `≥ size`.  `C03_Statement` is still false, because of the ORG witness below (which was already here). -/
 
 /-- a branch over an ORG: the displacement is computed from sizes, not from addresses -/
 def C03_orgWitness : List Str := ["START BRA END\n", " ORG $100\n", "END NOP\n"].map String.toList
@@ -291,13 +254,37 @@ theorem C03_branch_org_counterexample :
     ∃ a, assemble [] C03_orgWitness = .ok a ∧ orgCheck a = true :=
   checkProgram_sound (by decide +kernel) []
 
+/-- `C03_Statement` does not hold: its branch clause carries no "no ORG in between" hypothesis, and the
+ORG witness above violates it (stored byte 0, needed displacement 254, which no sign-extended byte gives).
+(Before fix aafdc4b this was derived from the PCR range counterexample, which no longer exists.) -/
+theorem C03_Statement_false : ¬ C03_Statement := by
+  intro hC
+  obtain ⟨a, ha, hchk⟩ := C03_branch_org_counterexample
+  unfold orgCheck at hchk
+  split at hchk
+  · rename_i s t hs ht
+    simp only [Bool.and_eq_true, beq_iff_eq] at hchk
+    obtain ⟨⟨⟨⟨⟨⟨h1, h2⟩, h3⟩, h4⟩, h5⟩, h6⟩, h7⟩ := hchk
+    split at h6
+    · rename_i m hval
+      obtain ⟨x, y, hx, hy, hshort, _⟩ := (hC [] _ a ha).1 0 2 m s t hs h7 hval ht
+      rw [h3] at hx; cases hx
+      rw [h4] at hy; cases hy
+      obtain ⟨d8, hd8, _, hy⟩ := hshort h1
+      rw [h2] at hy
+      unfold sext at hy
+      split at hy <;> omega
+    · cases h6
+  · cases hchk
+
 /-! ### summary -/
 
 /-- What is proved of C03. (1) `fix_addresses` reports a diagnostic exactly for short branches out of range;
 (2) in range, the stored field encodes the sum of sizes, as a sign-extended byte or modulo 65536;
 (3) for an accepted program without an ORG between branch and target, field + next instruction address =
 target address; (4) PCR statements store `target − address − size`.
-Not claimed: the 8-bit PCR form is only chosen for offsets in −128..127 (refuted, `C03_pcr_range_counterexample`). -/
+Not claimed: the 8-bit PCR form is only chosen for offsets in −128..127 (the former counterexample
+`C03_pcr_range_counterexample` was repaired by fix aafdc4b and deleted; the property itself is not proved here). -/
 theorem C03_partial :
     (∀ (ss : List Stmt) (i b : Nat) (s : Stmt), s.operand.kind = .relative → s.pkg.additional.int? = some b →
       (fixOne ss i s = .diag ↔
